@@ -723,3 +723,297 @@ Proof.
       destruct (cval c2 <? 2 ^ 64); [|discriminate]. congruence. }
     subst J1. rewrite (HJ ITop eq_refl) in Ht. apply tbody_top in Ht. subst new. cbn in Hfx. congruence.
 Qed.
+
+(* ================================================================== completion *)
+(* the engine only ever evaluates  trans l (join of the states of backward l):  two transfer functions
+   that agree on those arguments give the same run *)
+Section RunExt.
+  Variables (L S0 : Type) (eqb : L -> L -> bool).
+  Variables (join_from push_to : L -> res (list L)) (tr tr' : L -> option S0 -> res S0).
+  Variables (join : S0 -> S0 -> res S0) (cmp : S0 -> S0 -> option comparison).
+  Hypothesis Hagree : forall m l ps st, join_from l = Ok ps ->
+    FixedPoint.join_neighbours L S0 eqb join m ps = Ok st -> tr l st = tr' l st.
+
+  Lemma body_ext force m l q' k k' : (forall m2 q2, k m2 q2 = k' m2 q2) ->
+    FixedPoint.body L S0 eqb join_from push_to tr join cmp force m l q' k =
+    FixedPoint.body L S0 eqb join_from push_to tr' join cmp force m l q' k'.
+  Proof.
+    intros Hk. unfold FixedPoint.body.
+    destruct (join_from l) as [ps| |] eqn:Ej; try reflexivity.
+    destruct (FixedPoint.join_neighbours L S0 eqb join m ps) as [st| |] eqn:En; try reflexivity.
+    rewrite <- (Hagree m l ps st Ej En).
+    destruct (tr l st) as [new| |]; try reflexivity.
+    destruct (FixedPoint.lookup L S0 eqb m l) as [old|].
+    - destruct (cmp new old) as [[| |]|]; try apply Hk; destruct force;
+        try (destruct (join new old) as [j| |]; try reflexivity);
+        try (destruct (push_to l) as [ss| |]; try reflexivity; apply Hk); reflexivity.
+    - destruct (push_to l) as [ss| |]; try reflexivity. apply Hk.
+  Qed.
+
+  Lemma run_ext fuel force max : forall steps m q,
+    FixedPoint.run L S0 eqb join_from push_to tr join cmp fuel force max steps m q =
+    FixedPoint.run L S0 eqb join_from push_to tr' join cmp fuel force max steps m q.
+  Proof.
+    induction fuel as [|fuel IH]; intros steps m q; [reflexivity|].
+    cbn [FixedPoint.run]. destruct q as [|l q']; [reflexivity|].
+    destruct (Nat.ltb max steps); [reflexivity|]. apply body_ext. intros m2 q2. apply IH.
+  Qed.
+End RunExt.
+
+(* the order read off partial_cmp *)
+Notation ile := (FixedPointProofs.le ioff ioff_cmp).
+Lemma ile_char a b : ile a b <-> a = IBot \/ b = ITop \/ a = b.
+Proof.
+  unfold FixedPointProofs.le. destruct a as [|x|], b as [|y|]; cbn [ioff_cmp];
+    try (split; [intros _; tauto|intros _; tauto]);
+    try (split; [intros [H|H]; discriminate H|intros [H|[H|H]]; discriminate H]).
+  destruct (const_eqb x y) eqn:E.
+  - apply const_eqb_eq in E. subst. split; [tauto|intros _; right; reflexivity].
+  - split; [intros [H|H]; discriminate H|]. intros [H|[H|H]]; try discriminate H. injection H as ->.
+    rewrite const_eqb_refl in E. discriminate.
+Qed.
+
+Definition irank (s : ioff) : nat := match s with IBot => 0 | IVal _ => 1 | ITop => 2 end.
+Lemma irank_gt a b : ioff_cmp a b = Some Gt -> (irank b < irank a)%nat.
+Proof. destruct a as [|x|], b as [|y|]; cbn; try discriminate; try lia. destruct (const_eqb x y); discriminate. Qed.
+
+Lemma ijoin_lub a b j : ioff_join a b = Ok j -> ile a j /\ ile b j /\ (forall c, ile a c -> ile b c -> ile j c).
+Proof.
+  intros [= <-]. rewrite !ile_char. split; [|split].
+  - destruct a as [|x|], b as [|y|]; cbn; auto. destruct (const_eqb x y); auto.
+  - destruct a as [|x|], b as [|y|]; cbn; auto. destruct (const_eqb x y) eqn:E; auto. apply const_eqb_eq in E. subst. auto.
+  - intros c. rewrite !ile_char.
+    destruct a as [|x|], b as [|y|]; cbn [ioff_join_pure];
+      try (destruct (const_eqb x y) eqn:E; [apply const_eqb_eq in E; subst y|]);
+      intros Ha Hb;
+      repeat match goal with
+             | H : _ \/ _ |- _ => destruct H
+             end;
+      try discriminate; subst; auto;
+      try match goal with H : IVal _ = IVal _ |- _ => injection H as H; subst end; auto.
+    rewrite const_eqb_refl in E. discriminate.
+Qed.
+
+Lemma icmp_ge a b : ile b a -> ioff_cmp a b = Some Gt \/ ioff_cmp a b = Some Eq.
+Proof.
+  rewrite ile_char. intros [-> | [-> | ->]].
+  - destruct a; cbn; auto.
+  - destruct b as [|y|]; cbn; auto.
+  - right. apply ioff_cmp_refl.
+Qed.
+Lemma ile_trans a b c : ile a b -> ile b c -> ile a c.
+Proof. rewrite !ile_char. intros [-> | [-> | ->]] [H|[H|H]]; subst; auto; try discriminate H. Qed.
+
+Section Complete.
+  Variables (f : func) (sp : scalar).
+  Let w := sbits sp.
+  Hypothesis Hinv : cfg_inv (f_cfg f) = true.
+  Hypothesis Hwf : sp_wf sp f = true.
+  Variables (e : Z) (eb : block).
+  Hypothesis He : g_entry (f_cfg f) = Some e.
+  Hypothesis Hb : find_block (f_blocks f) e = Some eb.
+  Let entry := block_first_loc eb.
+  Hypothesis Hnoinc : entry_has_no_incoming f = true.
+
+  Definition igood (s : ioff) : Prop := match s with IVal c => cbits c = w /\ inr w (cval c) | _ => True end.
+
+  Let Hw : 1 <= w <= 64 := sp_wf_width sp f Hwf.
+  Let Hebin : In eb (f_blocks f) := proj1 (find_block_some _ _ _ Hb).
+
+  Lemma reach_instr l : reachL f entry l -> match l with LInstr _ _ => loc_instruction f l <> None | _ => True end.
+  Proof.
+    intros Hr. pose proof (reach_valid f Hinv eb Hebin l Hr) as Hv. destruct l as [bi ii|h t|bi]; [|exact I ..].
+    cbn [valid_loc loc_instruction] in *. destruct (find_block (f_blocks f) bi); [|discriminate].
+    destruct (block_instruction b ii); [discriminate|discriminate Hv].
+  Qed.
+
+  Lemma handle_ok o J : op_sp_wf sp o = true -> igood J -> exists a, handle_operation sp o J = Ok a /\ igood a.
+  Proof.
+    intros Ho HJ. destruct o as [dst src|idx src|dst idx|tgt|intr|ph]; cbn [handle_operation]; try (eexists; split; [reflexivity|exact HJ]).
+    - destruct (scalar_eqb dst sp) eqn:E; [|eexists; split; [reflexivity|exact HJ]].
+      apply scalar_eqb_eq in E. subst dst. cbn [op_sp_wf] in Ho.
+      assert (K : skey_eqb (skey_of sp) (skey_of sp) = true) by (apply skey_eqb_eq; reflexivity).
+      rewrite K in Ho. apply andb_prop in Ho as [_ Hsrc]. apply wfb_wf in Hsrc.
+      destruct J as [|c|]; try (eexists; split; [reflexivity|exact I]).
+      destruct HJ as [C1 C2].
+      assert (Wc : wf (EConst c)) by (cbn [wf]; rewrite C1; fold w; split; [lia|exact C2]).
+      destruct (replace_ok (fun _ => None) sp c src Hsrc Wc C1) as (e' & Re & _).
+      rewrite Re. cbn [bind]. destruct (is_offset sp src) eqn:Eo; cbn [andb]; [|eexists; split; [reflexivity|exact I]].
+      destruct (offset_sound sp ltac:(fold w; lia) [(skey_of sp, mkc w ((0 + cval c) mod 2 ^ w))] _ c 0
+                  ltac:(cbn [env_get]; rewrite K; reflexivity) C1 C2 eq_refl src Eo (wf_consts_inr _ Hsrc) e' Re)
+        as (A1 & _ & a & A3 & A4 & _).
+      rewrite A1, A3. cbn [bind]. eexists. split; [reflexivity|]. cbn [igood cbits cval]. split; [reflexivity|exact A4].
+    - destruct (scalar_eqb dst sp); [exists ITop; split; [reflexivity|exact I]|exists J; split; [reflexivity|exact HJ]].
+  Qed.
+
+  Lemma tbody_ok l J : reachL f entry l -> igood J -> exists a, tbody sp f l J = Ok a /\ igood a.
+  Proof.
+    intros Hr HJ. pose proof (reach_instr l Hr) as Hi. destruct l as [bi ii|h t|bi]; cbn [tbody]; try (eexists; split; [reflexivity|exact HJ]).
+    destruct (loc_instruction f (LInstr bi ii)) as [i|] eqn:Ei; [|contradiction].
+    apply handle_ok; [eapply sp_wf_op; eassumption|exact HJ].
+  Qed.
+
+  Lemma handle_mono o a b x y : ile a b -> handle_operation sp o a = Ok x -> handle_operation sp o b = Ok y -> ile x y.
+  Proof.
+    intros Hab. destruct o as [dst src|idx src|dst idx|tgt|intr|ph]; cbn [handle_operation];
+      try (intros [= <-] [= <-]; exact Hab).
+    - destruct (scalar_eqb dst sp); [|intros [= <-] [= <-]; exact Hab].
+      apply ile_char in Hab. destruct Hab as [-> | [-> | ->]].
+      + intros [= <-] _. apply ile_char. auto.
+      + intros _ [= <-]. apply ile_char. auto.
+      + intros H1 H2. rewrite H1 in H2. injection H2 as <-. apply ile_char. auto.
+    - destruct (scalar_eqb dst sp); intros [= <-] [= <-]; [apply ile_char; auto|exact Hab].
+  Qed.
+  Lemma tbody_mono l a b x y : ile a b -> tbody sp f l a = Ok x -> tbody sp f l b = Ok y -> ile x y.
+  Proof.
+    intros Hab. destruct l as [bi ii|h t|bi]; cbn [tbody]; try (intros [= <-] [= <-]; exact Hab).
+    destruct (loc_instruction f (LInstr bi ii)); [apply handle_mono; exact Hab|discriminate].
+  Qed.
+
+  (* the transfer function the engine effectively runs: the entry location never has a predecessor state *)
+  Definition trans' (l : floc) (st : option ioff) : res ioff :=
+    if floc_eqb l entry then spo_trans sp f l None else spo_trans sp f l st.
+
+  Lemma trans_agree m l ps st : backward f l = Ok ps -> jn m ps = Ok st -> spo_trans sp f l st = trans' l st.
+  Proof.
+    intros Hbk Hj. unfold trans'. destruct (floc_eqb l entry) eqn:E; [|reflexivity].
+    apply floc_eqb_eq in E. subst l.
+    pose proof (entry_no_pred f Hinv e eb He Hb Hnoinc) as Hp. unfold il_pred in Hp. fold entry in Hp.
+    rewrite Hbk in Hp. subst ps. cbn in Hj. injection Hj as <-. reflexivity.
+  Qed.
+
+  Lemma seed_good : igood (IVal (new_big 0 w)).
+  Proof. rewrite new_big_spec by lia. cbn [igood cbits cval]. split; [reflexivity|]. apply U_inr. lia. Qed.
+
+  Lemma trans'_ok l st : reachL f entry l -> (st = None -> l = entry) ->
+    (forall s, st = Some s -> igood s) -> exists a, trans' l st = Ok a /\ igood a.
+  Proof.
+    intros Hr Hn Hg. unfold trans'. destruct (floc_eqb l entry) eqn:E.
+    - apply floc_eqb_eq in E. subst l. unfold entry. rewrite (spo_trans_entry_none f sp e eb He Hb). apply tbody_ok; [exact Hr|apply seed_good].
+    - destruct st as [s|]; [|rewrite (Hn eq_refl) in E; assert (floc_eqb entry entry = true) by (apply floc_eqb_eq; reflexivity); congruence].
+      rewrite spo_trans_some. apply tbody_ok; [exact Hr|apply Hg; reflexivity].
+  Qed.
+End Complete.
+
+Lemma list_max_in x l : In x l -> (x <= list_max l)%nat.
+Proof.
+  intros H. assert (F : Forall (fun k => (k <= list_max l)%nat) l) by (apply list_max_le; lia).
+  rewrite Forall_forall in F. exact (F x H).
+Qed.
+
+(* largest number of successor locations of a location *)
+Definition out_degree (f : func) : nat := list_max (List.map (fun l => length (il_succ f l)) (locations f)).
+
+Lemma transform_ok sp m : (1 <= sbits sp <= 64) -> (forall l s, lk m l = Some s -> igood sp s) ->
+  (forall l s, In (l, s) m -> igood sp s) -> exists r, transform m = Ok r.
+Proof.
+  intros Hw _ Hg. induction m as [|[k i] t IH]; [eexists; reflexivity|]. cbn [transform].
+  assert (Hi : igood sp i) by (apply (Hg k); left; reflexivity).
+  destruct IH as (r & Hr); [intros l s H; apply (Hg l); right; exact H|].
+  rewrite Hr. destruct i as [|c|]; cbn [from_intermediate bind]; try (eexists; reflexivity).
+  destruct Hi as [C1 C2]. assert (cval c < 2 ^ 64).
+  { destruct C2 as [_ C2]. assert (2 ^ sbits sp <= 2 ^ 64) by (apply Z.pow_le_mono_r; lia). lia. }
+  destruct (Z.ltb_spec (cval c) (2 ^ 64)); [|lia]. cbn [bind]. eexists; reflexivity.
+Qed.
+
+(* the result map has one entry per location *)
+Lemma fp_insert_keys {S0} (m : list (floc * S0)) l s :
+  List.map fst (FixedPoint.insert floc S0 floc_eqb m l s) =
+  if existsb (floc_eqb l) (List.map fst m) then List.map fst m else List.map fst m ++ [l].
+Proof.
+  induction m as [|[k v] t IH]; cbn [FixedPoint.insert List.map fst existsb app]; [reflexivity|].
+  destruct (floc_eqb k l) eqn:E.
+  - apply floc_eqb_eq in E. subst k. assert (floc_eqb l l = true) by (apply floc_eqb_eq; reflexivity).
+    rewrite H. reflexivity.
+  - cbn [List.map fst]. rewrite IH.
+    assert (E' : floc_eqb l k = false).
+    { destruct (floc_eqb l k) eqn:E2; [|reflexivity]. apply floc_eqb_eq in E2. subst.
+      assert (floc_eqb k k = true) by (apply floc_eqb_eq; reflexivity). congruence. }
+    rewrite E'. cbn [orb]. destruct (existsb (floc_eqb l) (List.map fst t)); reflexivity.
+Qed.
+Lemma fp_insert_nodup {S0} (m : list (floc * S0)) l s :
+  NoDup (List.map fst m) -> NoDup (List.map fst (FixedPoint.insert floc S0 floc_eqb m l s)).
+Proof.
+  intros H. rewrite fp_insert_keys. destruct (existsb (floc_eqb l) (List.map fst m)) eqn:E; [exact H|].
+  apply NoDup_app_intro; [exact H|constructor; [intros []|constructor]|].
+  intros x Hx [Hl|[]]. subst x. assert (existsb (floc_eqb l) (List.map fst m) = true); [|congruence].
+  apply existsb_exists. exists l. split; [exact Hx|apply floc_eqb_eq; reflexivity].
+Qed.
+Lemma fp_in_lookup {S0} (m : list (floc * S0)) l s :
+  NoDup (List.map fst m) -> In (l, s) m -> FixedPoint.lookup floc S0 floc_eqb m l = Some s.
+Proof.
+  induction m as [|[k v] t IH]; cbn [List.map fst In FixedPoint.lookup]; [tauto|].
+  intros Hn [[= -> ->]|Hin].
+  - assert (floc_eqb l l = true) by (apply floc_eqb_eq; reflexivity). rewrite H. reflexivity.
+  - inversion Hn as [|? ? Hnot Hn']; subst. destruct (floc_eqb k l) eqn:E; [|auto].
+    apply floc_eqb_eq in E. subst k. exfalso. apply Hnot. apply in_map_iff. exists (l, s). auto.
+Qed.
+
+(* C17, completion: every function (CFG invariant, well-sorted stack-pointer operations) whose entry
+   block has no incoming edge is analysed without error, for every stack-pointer width 1..64 -- in
+   particular the 32- and 64-bit stack pointers of the seven architectures -- provided the engine's
+   step budget max is at least the C09 bound. *)
+Theorem spo_completes f sp max :
+  cfg_inv (f_cfg f) = true -> sp_wf sp f = true -> entry_has_no_incoming f = true ->
+  (1 + out_degree f * (length (locations f) * 3) <= Datatypes.S max)%nat ->
+  exists r, stack_pointer_offsets_max max f sp = Ok r.
+Proof.
+  intros Hinv Hwf Hno Hbudget.
+  destruct (g_entry (f_cfg f)) as [e|] eqn:He; [|unfold entry_has_no_incoming in Hno; rewrite He in Hno; discriminate].
+  assert (Hhas : exists eb, find_block (f_blocks f) e = Some eb).
+  { pose proof Hinv as Hi. unfold cfg_inv in Hi. rewrite He in Hi. apply andb_prop in Hi as [Hi _]. apply andb_prop in Hi as [_ Hhb].
+    unfold has_block in Hhb. fold (f_blocks f) in Hhb. destruct (find_block (f_blocks f) e) as [eb|]; [eauto|discriminate]. }
+  destruct Hhas as (eb & Hb).
+  pose proof (proj1 (find_block_some _ _ _ Hb)) as Hin.
+  pose proof (il_from_ok f Hinv eb Hin) as Hfrom. pose proof (il_to_ok f Hinv eb Hin) as Hto.
+  pose proof (il_converse f Hinv eb Hin) as Hconv.
+  pose proof (sp_wf_width sp f Hwf) as Hw.
+  assert (Hrefl : floc_eqb (block_first_loc eb) (block_first_loc eb) = true) by (apply floc_eqb_eq; reflexivity).
+  assert (Hlocs : forall l, reachL f (block_first_loc eb) l -> In l (locations f)).
+  { intros l Hr. apply (locations_valid f l Hinv). exact (reach_valid f Hinv eb Hin l Hr). }
+  assert (Hgt : forall l st a, reachL f (block_first_loc eb) l -> (st = None -> l = block_first_loc eb) ->
+                  ogood ioff (igood sp) st -> trans' f sp eb l st = Ok a -> igood sp a).
+  { intros l st a Hr Hn Hg Ht. destruct (trans'_ok f sp Hinv Hwf e eb He Hb l st Hr Hn Hg) as (a' & E & G). congruence. }
+  assert (Hgj : forall a b j, igood sp a -> igood sp b -> ioff_join a b = Ok j -> igood sp j).
+  { intros a b j Ha Hb0 [= <-]. destruct a as [|x|], b as [|y|]; cbn [ioff_join_pure]; try exact I; try assumption.
+    destruct (const_eqb x y); [assumption|exact I]. }
+  destruct (fp_complete_rel floc ioff floc_eqb floc_eqb_reflect (backward f) (forward f) (trans' f sp eb) ioff_join ioff_cmp
+              (il_succ f) (il_pred f) (block_first_loc eb) Hfrom Hto Hconv ioff_cmp_refl (igood sp) Hgt Hgj) with
+      (rank := irank) (h := 2%nat) (U := locations f) (d := out_degree f) (max := max) as (m & Hrun).
+  - intros a b c _ _ _. apply ile_trans.
+  - intros a b j _ _ Hj. destruct (ijoin_lub a b j Hj) as (A & B & C). split; [exact A|split; [exact B|]]. intros c _. apply C.
+  - intros l x y a b Hr Hn _ _ Hxy Ha Hb0. unfold trans' in Ha, Hb0.
+    destruct (floc_eqb l (block_first_loc eb)) eqn:E.
+    + rewrite Ha in Hb0. injection Hb0 as <-. apply ile_char. auto.
+    + destruct x as [xa|]; [|rewrite (Hn eq_refl) in E; congruence].
+      destruct y as [yb|]; [|destruct Hxy]. rewrite spo_trans_some in Ha, Hb0. eapply tbody_mono; [exact Hxy|exact Ha|exact Hb0].
+  - intros a b _ _. apply icmp_ge.
+  - intros a b _ _. eexists. reflexivity.
+  - intros l st Hr Hn Hg. destruct (trans'_ok f sp Hinv Hwf e eb He Hb l st Hr Hn Hg) as (a & E & _). eauto.
+  - intros s. destruct s; cbn; lia.
+  - apply irank_gt.
+  - apply (locations_nodup f Hinv).
+  - exact Hlocs.
+  - intros l Hr. unfold out_degree. apply list_max_in. apply in_map_iff. exists l. split; [reflexivity|exact (Hlocs l Hr)].
+  - exact Hbudget.
+  - (* the engine with the real transfer function does the same run *)
+    rewrite <- (run_ext floc ioff floc_eqb (backward f) (forward f) (spo_trans sp f) (trans' f sp eb) ioff_join ioff_cmp
+                  (fun m0 l ps st => trans_agree f sp Hinv e eb He Hb Hno m0 l ps st)) in Hrun.
+    assert (HG : Good floc ioff floc_eqb (igood sp) m).
+    { rewrite (run_ext floc ioff floc_eqb (backward f) (forward f) (spo_trans sp f) (trans' f sp eb) ioff_join ioff_cmp
+                  (fun m0 l ps st => trans_agree f sp Hinv e eb He Hb Hno m0 l ps st)) in Hrun.
+      exact (fp_good floc ioff floc_eqb floc_eqb_reflect (backward f) (forward f) (trans' f sp eb) ioff_join ioff_cmp
+               (il_succ f) (il_pred f) (block_first_loc eb) Hfrom Hto Hconv (igood sp) Hgt Hgj _ _ _ m Hrun). }
+    assert (Hnd : NoDup (List.map fst m)).
+    { destruct (run_done_term _ _ _ _ _ _ _ _ _ _ _ _ _ _ _ Hrun) as (n & Hterm).
+      refine (term_inv floc ioff floc_eqb (backward f) (forward f) (spo_trans sp f) ioff_join ioff_cmp
+                (fun m0 _ => NoDup (List.map fst m0)) false _ _ _ _ _ Hterm _); [|constructor].
+      intros m0 l q' m2 q2 H0 Hbs.
+      destruct (bstep_next _ _ _ _ _ _ _ _ _ _ _ _ _ _ Hbs) as (ps & st & new & _ & _ & _ & [(old & _ & _ & -> & _)|(s0 & ss & _ & -> & _ & _)]);
+        [exact H0|apply fp_insert_nodup; exact H0]. }
+    destruct (transform_ok sp m Hw) as (r & Hr).
+    { intros l s Hl. exact (HG l s Hl). }
+    { intros l s Hl. exact (HG l s (fp_in_lookup m l s Hnd Hl)). }
+    exists r. unfold stack_pointer_offsets_max, spo_states, fp_forward. rewrite He. unfold f_block, cfg_block.
+    fold (f_blocks f). rewrite Hb. cbn [bind]. rewrite Hrun. cbn [of_outcome bind]. exact Hr.
+Qed.
